@@ -89,7 +89,16 @@ func (x *Unit) evalArgs(st *State, e *ast.CallExpr, sig *types.Signature) ([]Ter
 		} else if i < np {
 			pt = params.At(i).Type()
 		}
-		v := x.conv(x.evalNilAware(st, a, pt), x.typeOf(a), pt)
+		var v Term
+		if u, ok := ast.Unparen(a).(*ast.UnaryExpr); ok && u.Op == token.AND {
+			if _, isId := ast.Unparen(u.X).(*ast.Ident); isId && x.isErrorsAs(e) {
+				v = TG("nilI", SIface, pt) // placeholder: handled by the errors.As model
+				args = append(args, v)
+				ats = append(ats, pt)
+				continue
+			}
+		}
+		v = x.conv(x.evalNilAware(st, a, pt), x.typeOf(a), pt)
 		args = append(args, v)
 		ats = append(ats, pt)
 	}
@@ -194,6 +203,9 @@ func (x *Unit) prepareCall(st *State, e *ast.CallExpr) *preparedCall {
 				}
 			}
 			pc.contract = x.lookupDynContract(pc.name, fn.Name(), pc.recvT)
+			if pc.contract == nil && (isPureExternal(fn.FullName()) || isKnownExternal(fn.FullName())) {
+				pc.kind = "external"
+			}
 			return pc
 		}
 		if fn.Pkg() != nil {
@@ -269,6 +281,11 @@ func (x *Unit) lookupDynContract(name, method string, t types.Type) *FuncContrac
 
 func (x *Unit) finishCall(st *State, pc *preparedCall) []Term {
 	e := pc.call
+	saved := x.curCallSite
+	if pc.node != nil {
+		x.curCallSite = x.P.pos(pc.node) + " " + pc.kind + " " + pc.name
+	}
+	defer func() { x.curCallSite = saved }()
 	switch pc.kind {
 	case "conv":
 		t := x.typeOf(e.Fun)
@@ -476,12 +493,21 @@ func (x *Unit) raise(st *State, v Term) {
 	x.set(ps, "$panicking", True)
 	x.set(ps, "$panicval", v)
 	x.fr.panics = append(x.fr.panics, ps)
+	if x.curCallSite != "" {
+		x.panicSites[x.curCallSite] = true
+	}
 }
 
 // ---------------------------------------------------------------------------
 // traces
 
 func (x *Unit) traceEvent(st *State, key string, args []Term, rets []Term) {
+	for _, ls := range x.loopStmtStack {
+		if x.loopKeys[ls] == nil {
+			x.loopKeys[ls] = map[string]bool{}
+		}
+		x.loopKeys[ls][key] = true
+	}
 	x.regComp("clk", SInt)
 	x.regComp("TL:"+key, SInt)
 	x.regComp("TT:"+key, x.U.arraySort(SInt, SInt))
@@ -723,6 +749,9 @@ func (x *Unit) applyContract(st *State, pc *preparedCall) []Term {
 	if len(c.Ensures) > 0 {
 		env := x.contractEnv(st, pre, pc, rets)
 		for _, en := range c.Ensures {
+			if isFrameInternal(en.Expr, c) {
+				continue // talks about the callee's own call trace / ghost state: meaningless to the caller
+			}
 			x.assume(st, env.boolOf(en.Expr))
 		}
 	}
@@ -1060,8 +1089,8 @@ func (x *Unit) inlineBodyInFrame(st *State, fl *ast.FuncLit, sig *types.Signatur
 
 func (x *Unit) guardCheck(st *State, base Term, structT types.Type, field string, write bool, n ast.Node) {
 	fd, ok := x.fieldDecls[recvTypeName(structT)+"."+field]
-	if !ok || x.inlineDepth > 0 && false {
-		return
+	if !ok || x.mode != "conc" {
+		return // locking disciplines are checked in the concurrent units only (collection is documented single-goroutine)
 	}
 	// objects allocated by this frame and not yet published are exempt
 	x.regComp("alloc", SInt)
@@ -1358,4 +1387,65 @@ func (x *Unit) syncMods(e *ast.CallExpr, fn *types.Func, ms *modSet) {
 	default:
 		ms.all = true
 	}
+}
+
+// isFrameInternal: the clause mentions the callee frame's call trace or ghost variables.
+func isFrameInternal(e SExpr, c *FuncContract) bool {
+	ghosts := map[string]bool{}
+	for _, g := range c.Ghosts {
+		ghosts[g.Name] = true
+	}
+	for _, l := range c.Lets {
+		ghosts[l.Name] = true
+	}
+	found := false
+	var walk func(e SExpr)
+	walk = func(e SExpr) {
+		if found || e == nil {
+			return
+		}
+		switch v := e.(type) {
+		case *SIdent:
+			if ghosts[v.Name] || v.Name == "clock" || v.Name == "panicking" {
+				found = true
+			}
+		case *SUnary:
+			walk(v.X)
+		case *SBinary:
+			walk(v.X)
+			walk(v.Y)
+		case *SCall:
+			switch v.Fn {
+			case "ncalls", "callarg", "callret", "calltime":
+				found = true
+			}
+			for _, a := range v.Args {
+				walk(a)
+			}
+		case *SField:
+			walk(v.X)
+		case *SIndex:
+			walk(v.X)
+			walk(v.I)
+		case *SQuant:
+			walk(v.Body)
+		}
+	}
+	walk(e)
+	return found
+}
+
+func (x *Unit) isErrorsAs(e *ast.CallExpr) bool {
+	if fn, ok := x.calleeObj(e).(*types.Func); ok {
+		return fn.FullName() == "errors.As"
+	}
+	return false
+}
+
+func isKnownExternal(full string) bool {
+	switch full {
+	case "(context.Context).Value", "(context.Context).Done", "(context.Context).Err":
+		return true
+	}
+	return false
 }
